@@ -15,7 +15,9 @@ AsFloat(t) == LET d == IntToDouble(FromDec(t)) IN [k |-> "float", num |-> ToDec(
 Eighth(n)  == [k |-> "float", num |-> ToString(n), den |-> "8"]
 Others == {[k |-> "nil"], [k |-> "bool"], [k |-> "arr"], [k |-> "str", s |-> "abc"],
            [k |-> "str", s |-> "2.5", num |-> "5", den |-> "2"], [k |-> "str", s |-> "-0.125", num |-> "-1", den |-> "8"],
-           [k |-> "str", s |-> "99999999999999999999", num |-> "100000000000000000000", den |-> "1"]}
+           [k |-> "str", s |-> "99999999999999999999", num |-> "100000000000000000000", den |-> "1"],
+           \* tiny but non-zero divisors: 2^-70 and -3 * 2^-70 (exact doubles); only zero divides by zero
+           [k |-> "float", num |-> "1", den |-> "1180591620717411303424"], [k |-> "float", num |-> "-3", den |-> "1180591620717411303424"]}
 Operands == {AsInt(t) : t \in IntTexts} \cup {AsStr(t) : t \in IntTexts} \cup {AsFloat(t) : t \in IntTexts}
 EighthOps == {Eighth(n) : n \in (0 - Eighths)..Eighths}
 \* odd integers between 2^52 and 2^53 (x + 0.5 is not representable there), as integer, float and string
